@@ -235,9 +235,28 @@ def lvl6(spec):
 
 LEVELS = [lvl0, lvl1, lvl2, lvl3, lvl4, lvl5, lvl6]
 
+# the same chain with level 2 defined through exec(): its source cannot be retrieved
+_ns = {"A": A, "_level": _level, "lvl1": lvl1}
+exec("@A()\ndef lvl2(spec):\n    return (yield from _level(2, spec, lvl1))\n", _ns)
+lvl2x = _ns["lvl2"]
 
-def f_glue(d, raise_at, catch_at, blocks):
+
+@A()
+def lvl3x(spec):
+    return (yield from _level(3, spec, lvl2x))
+
+
+@A()
+def lvl4x(spec):
+    return (yield from _level(4, spec, lvl3x))
+
+
+LEVELS_X = [lvl0, lvl1, lvl2x, lvl3x, lvl4x]
+
+
+def f_glue(d, raise_at, catch_at, blocks, nosrc=False):
     dd = conc(d, 7)
+    use_x = concb(nosrc) and 2 <= dd <= 4
     ra = conc(raise_at, 8) - 1           # -1: nobody raises
     ca = conc(catch_at, 8) - 1
     bl = concb(blocks)
@@ -250,11 +269,15 @@ def f_glue(d, raise_at, catch_at, blocks):
     spec = Spec(ra, ca, bl, stack_out)
     try:
         try:
-            got = ("v", LEVELS[dd](spec))
+            got = ("v", (LEVELS_X if use_x else LEVELS)[dd](spec))
         except prog.E as e:
             got = ("e", e)
-        desc = "chain of %d task levels, level %d raises, level %d re-raises, %s" % (
-            dd + 1, ra, ca, "blocking on a batch" if bl else "no batch")
+        except Exception as e:
+            prog.reraise_control(e)
+            return rec.fail("chain of %d levels%s: %r escaped" % (dd + 1, " (level 2 defined through exec)" if use_x else "", e))
+        desc = "chain of %d task levels%s, level %d raises, level %d re-raises, %s" % (
+            dd + 1, " (level 2 defined through exec)" if use_x else "", ra, ca,
+            "blocking on a batch" if bl else "no batch")
         if ra < 0:
             if got != ("v", dd):
                 return rec.fail("%s: result %r" % (desc, got))
@@ -268,6 +291,7 @@ def f_glue(d, raise_at, catch_at, blocks):
             while tb is not None:
                 nm = tb.tb_frame.f_code.co_name
                 if nm.startswith("lvl"):
+                    nm = nm.rstrip("x")
                     if not names or names[-1] != nm:
                         names.append(nm)
                 if nm == "_level":
@@ -289,7 +313,7 @@ def f_glue(d, raise_at, catch_at, blocks):
                 return rec.fail("%s: format_asynq_stack() in the leaf returned %r entries, expected %d" % (
                     desc, None if st is None else len(st), dd + 1))
             for i, entry in enumerate(st):
-                if ("lvl%d" % (dd - i)) not in entry:
+                if ("lvl%d" % (dd - i)) not in entry and not (use_x and dd - i == 2 and "lvl2" in entry):
                     return rec.fail("%s: format_asynq_stack() entry %d is %r, expected the level-%d task" % (
                         desc, i, entry[:120], dd - i))
         if D.format_asynq_stack() is not None:
@@ -635,7 +659,8 @@ def conds(tier):
     out.append(Cond("filterfree", f_filter_free, [I("n", 0, nfree)] + [I("l%d" % i, 0, 5) for i in range(nfree)],
                     pin=2, builds=("P",), budget=300 if q else 1800,
                     family="filter_traceback: all sequences of <= %d lines over a 6-line alphabet" % nfree, encodes=ENC))
-    out.append(Cond("glue", f_glue, [I("d", 0, 4 if q else 6), I("raise_at", 0, 7), I("catch_at", 0, 7), B("blocks")],
+    out.append(Cond("glue", f_glue, [I("d", 0, 4 if q else 6), I("raise_at", 0, 7), I("catch_at", 0, 7), B("blocks"),
+                                     B("nosrc")],
                     pin=1, builds=("C", "P"), budget=200,
                     family="glued tracebacks / format_asynq_stack: depth x raise position x re-raise position",
                     encodes=ENC))
